@@ -301,7 +301,7 @@ class Repo:
         body is analysed in the context of its callers, not on its own"""
         from .normalise import PINNED_PRIVATE
         n = getattr(fn, 'name', '')
-        return n.startswith('_') and not n.startswith('__') and n not in PINNED_PRIVATE
+        return n.startswith('_') and not n.startswith('__') and n not in PINNED_PRIVATE and getattr(fn, '_fully_inlined', False)
 
     def coverage(self):
         return [{'module': PACKAGE + '.' + m.name, 'path': m.path, 'sha256': m.sha256,
